@@ -53,6 +53,17 @@ def in_scope(fi: FuncInfo) -> bool:
     return fi.module.name.startswith(SCOPE)
 
 
+# infeasible only on paths through the named function (the same raise reached another way is still reported)
+REVIEWED_VIA = {
+    ("sigma.rule.detection.SigmaDetections.__post_init__", "raise sigma_exceptions.SigmaConditionError('Sigma rule must contain at least one condition'", "sigma.filters.SigmaFilter.apply_on_rule"):
+        "apply_on_rule re-runs __post_init__ on the detections of a rule that loaded (so it has a condition) after rewriting every condition string: the list is not empty",
+    ("sigma.rule.detection.SigmaDetections.__post_init__", "raise sigma_exceptions.SigmaDetectionError('No detections defined in Sigma rule'", "sigma.filters.SigmaFilter.apply_on_rule"):
+        "apply_on_rule re-runs __post_init__ after adding the filter's detections to a rule that already had some: the map is not empty",
+    ("sigma.rule.logsource.SigmaLogSource.__contains__", "raise SigmaTypeError('Containment check only allowed between log sources'", "sigma.filters.SigmaFilter._should_apply_on_rule"):
+        "both operands are log source objects built by the loaders (SigmaLogSource or its placeholder subclass, whose own __contains__ answers False): the isinstance guard cannot fail",
+}
+
+
 def run(ctx) -> None:
     r = ctx.r
     r.explanation = (
@@ -75,6 +86,7 @@ def run(ctx) -> None:
     r4_one_error_list(ctx)
     r5_placeholders_inert(ctx)
     r1b_text_parsers(ctx)
+    r6_yaml_documents_checked(ctx)
 
 
 def r1_r2(ctx, ea: EscapeAnalysis) -> None:
@@ -87,6 +99,10 @@ def r1_r2(ctx, ea: EscapeAnalysis) -> None:
         for k, e in sorted(esc.items(), key=lambda kv: (kv[1].origin_fn, kv[1].origin)):
             sigma = is_sigma_error(prog, e.exc)
             rev = next((v for (fn, pre), v in REVIEWED_INFEASIBLE.items() if fn == e.origin_fn and e.origin.startswith(pre)), None)
+            if rev is None:
+                rev = next((v for (fn, pre, via), v in REVIEWED_VIA.items() if fn == e.origin_fn and e.origin.startswith(pre) and via in e.path), None)
+                if rev is not None and "SigmaLogSource.__contains__" in e.origin_fn and "__contains__" not in prog.cls("sigma.rule.logsource.EmptyLogSource").methods:
+                    rev = None  # the review rests on the placeholder answering False itself
             if rev:
                 r.ok("C07.R1", e.origin_fn, f"{e.origin} — infeasible: {rev}", e.loc)
                 continue
@@ -273,6 +289,29 @@ def r1b_text_parsers(ctx) -> None:
                 r.ok("C07.R1", f.qual, f"{short(c, 50)}: {', '.join(TEXT_PARSERS[call_name(c)])} → Sigma error", loc)
     if n < 2:
         raise AnalysisError(f"only {n} parser calls on document text found in the value types (2 confirmed: re.compile, ip_network)")
+
+
+def r6_yaml_documents_checked(ctx) -> None:
+    """The entry assumption of R1 ("the document handed to from_dict is a mapping") must be established by the library's own
+    from_yaml functions: whatever yaml.load returned is checked to be a dict before it is handed to a mapping-assuming loader."""
+    r, prog = ctx.r, ctx.prog
+    r.rule("C07.R6", "a YAML document is checked to be a map before it is handed to a loader that assumes one: every value obtained from yaml.load/safe_load that reaches from_dict of a rule class passes an isinstance(…, dict) test (None → {})")
+    n = 0
+    for f in prog.functions_in(*SCOPE):
+        loads = [(a.targets[0].id, a) for a in walk_no_nested(f.node) if isinstance(a, ast.Assign) and isinstance(a.targets[0], ast.Name)
+                 and isinstance(a.value, ast.Call) and call_name(a.value) in ("yaml.load", "yaml.safe_load")]
+        for name, a in loads:
+            for c in walk_no_nested(f.node):
+                if isinstance(c, ast.Call) and isinstance(c.func, ast.Attribute) and c.func.attr == "from_dict" and c.args and isinstance(c.args[0], ast.Name) and c.args[0].id == name:
+                    n += 1
+                    gs = atomic_guards(guards_at(prog, f, c))
+                    loc = f"{f.module.relpath}:{c.lineno}"
+                    if (f"isinstance({name}, dict)", True) in gs:
+                        r.ok("C07.R6", f.qual, f"{short(c, 60)} only for a dict document", loc)
+                    else:
+                        r.violation("C07.R6", f.qual, short(c, 80), f"the parsed YAML document {name} is handed to from_dict without a test that it is a map: a document that is a list or a scalar fails with AttributeError ('list' object has no attribute 'get') in both modes", loc)
+    if n < 1:
+        raise AnalysisError("no yaml.load → from_dict hand-over found (SigmaRuleBase.from_yaml confirmed)")
 
 
 def r5_placeholders_inert(ctx) -> None:
